@@ -303,6 +303,11 @@ class MaterialFile(BaseMaterial):
                 data_file = StringIO(sub_data['data'])
                 arr = np.atleast_2d(np.loadtxt(data_file))
 
+                # np.interp needs non-decreasing sample points; a few data
+                # files list rows out of order. Reorder only (stable): rows
+                # that repeat a wavelength are all kept, in file order.
+                arr = arr[np.argsort(arr[:, 0], kind='stable')]
+
                 if sub_data_type == 'tabulated n':
                     self._n_wavelength = arr[:, 0]
                     self._n = arr[:, 1]
